@@ -24,6 +24,7 @@
 package main
 
 import (
+	"bytes"
 	"context"
 	"fmt"
 	"os"
@@ -1247,6 +1248,39 @@ func (r result) line() string {
 	return r.flow + " | " + joinOr(r.out, "-") + " | " + r.vars + " | " + r.funs
 }
 
+// txWatch: the transaction outcome of a run.  The session of the generated programs works in a repository with the
+// file table ft.csv and has AutoCommit on (as `csvq -s file` has); every program starts with an INSERT into ft, so
+// whether Processor.Execute committed shows in the file.
+type txWatch struct {
+	file string
+	orig []byte
+}
+
+const filePrelude = "INSERT INTO ft VALUES (1); "
+
+func newTxWatch(dir string) *txWatch {
+	w := &txWatch{file: filepath.Join(dir, "ft.csv"), orig: []byte("c1\n0\n")}
+	if err := os.WriteFile(w.file, w.orig, 0o644); err != nil {
+		panic(err)
+	}
+	return w
+}
+
+// outcome reports whether the run was committed, discards what is pending and puts the file back
+func (w *txWatch) outcome(pr *hc.Proc) string {
+	now, err := os.ReadFile(w.file)
+	committed := err != nil || !bytes.Equal(now, w.orig)
+	_ = pr.P.AutoRollback()
+	_ = pr.P.ReleaseResourcesWithErrors()
+	if committed {
+		if err := os.WriteFile(w.file, w.orig, 0o644); err != nil {
+			panic(err)
+		}
+		return "commit"
+	}
+	return "nocommit"
+}
+
 func newProc() *hc.Proc {
 	pr := hc.NewProc("")
 	_ = pr.P.Tx.SetFlag(option.QuietFlag, true) // only PRINT writes to stdout ("1 record inserted" etc. are notices)
@@ -1488,6 +1522,64 @@ func lawsObjects(g *hc.Gen, o *hc.Out) {
 				[]string{outer, body, "FETCH cz INTO @r; PRINT @r;"}, got, want})
 		}
 		pr.Close()
+	}
+}
+
+// lawFileShadow: the outermost thing a temporary table can shadow is a FILE of the repository.  A function called from
+// INSIDE a query over the file fs.csv declares its own temporary table fs (at a random depth of blocks in its body)
+// and reads / changes it: every invocation sees its own table, and the file is byte-identical afterwards, also
+// after COMMIT.
+func lawFileShadow(g *hc.Gen, o *hc.Out, base string) {
+	dir, err := os.MkdirTemp(base, "c15-files-")
+	if err != nil {
+		panic(err)
+	}
+	defer os.RemoveAll(dir)
+	orig := []byte("c1\n1\n2\n")
+	file := filepath.Join(dir, "fs.csv")
+	if err := os.WriteFile(file, orig, 0o644); err != nil {
+		panic(err)
+	}
+	type body struct{ name, sql, perRow string }
+	bodies := []body{
+		{"insert", "DECLARE fs VIEW (c1); INSERT INTO fs VALUES ((@x + 100)), ((@x + 200)); SELECT COUNT(*) INTO @r FROM fs;", "I2,I2"},
+		{"update", "DECLARE fs VIEW (c1) AS SELECT 5; UPDATE fs SET c1 = (c1 + @x); SELECT SUM(c1) INTO @r FROM fs;", "I6,I7"},
+		{"delete", "DECLARE fs VIEW (c1); INSERT INTO fs VALUES (1), (2), (3); DELETE FROM fs WHERE c1 < 3; SELECT COUNT(*) INTO @r FROM fs;", "I1,I1"},
+		{"read", "DECLARE fs VIEW (c1) AS SELECT 9 UNION ALL SELECT 9 UNION ALL SELECT 9; SELECT COUNT(*) INTO @r FROM fs;", "I3,I3"},
+	}
+	bd := bodies[g.Intn(len(bodies))]
+	id := 0
+	inner, kinds := wrap(g, bd.sql, g.Intn(3), &id)
+	fn := "DECLARE fz FUNCTION (@x) AS BEGIN VAR @r; " + inner + " RETURN @r; END; VAR @a; VAR @b; "
+	var query, want, form string
+	switch g.Intn(3) {
+	case 0:
+		form = "cursor_query"
+		query = "DECLARE cz CURSOR FOR SELECT c1, fz(c1) FROM fs ORDER BY c1; OPEN cz; WHILE @a, @b IN cz DO PRINT @b; END WHILE;"
+		want = bd.perRow
+	case 1:
+		form = "where"
+		query = "SELECT COUNT(*) INTO @b FROM fs WHERE fz(c1) < 1000; PRINT @b;"
+		want = "I2"
+	default:
+		form = "select_into"
+		query = "SELECT fz(c1) INTO @b FROM fs WHERE c1 = 2; PRINT @b;"
+		want = strings.Split(bd.perRow, ",")[1]
+	}
+	sql := fn + query + " COMMIT;"
+	pr := hc.NewProc(dir)
+	_ = pr.P.Tx.SetFlag(option.QuietFlag, true)
+	r := exec(pr, sql)
+	pr.Close()
+	now, _ := os.ReadFile(file)
+	o.Count("law:file_shadow_" + bd.name + "_" + form)
+	if len(kinds) > 0 {
+		o.Count("law_file_shadow_declared_in:" + kinds[0])
+	}
+	got := fmt.Sprintf("%s %s file=%q", r.flow, joinOr(r.out, "-"), string(now))
+	if exp := fmt.Sprintf("N %s file=%q", want, string(orig)); got != exp {
+		report(o, "local_table_shadows_file_"+bd.name, lawCase{"local_table_shadows_file_" + bd.name,
+			[]string{"-- repository with fs.csv = " + strconv.Quote(string(orig)), sql}, got, exp})
 	}
 }
 
@@ -1796,7 +1888,15 @@ func runC15(seed int64, n int, dir string, _ []string) {
 	render.dir = d
 	defer os.RemoveAll(d)
 
-	shared := newProc()
+	repoDir, err := os.MkdirTemp(base, "c15-repo-")
+	if err != nil {
+		panic(err)
+	}
+	defer os.RemoveAll(repoDir)
+	watch := newTxWatch(repoDir)
+	shared := hc.NewProc(repoDir)
+	_ = shared.P.Tx.SetFlag(option.QuietFlag, true)
+	shared.P.Tx.AutoCommit = true
 	defer shared.Close()
 	lawConcurrent(g, o)
 	for i := 0; i < n; i++ {
@@ -1804,7 +1904,15 @@ func runC15(seed int64, n int, dir string, _ []string) {
 		pg, prog := genProgram(g, false, wild)
 		sql := sqlProgram(prog)
 		pp, npp := preps()
+		// the transaction outcome is watched (a file table is changed in front of the program) for every program
+		// that contains an EXIT and for every third other one: a commit costs a file write
+		watched := i%3 == 0 || pg.kinds['Q'] > 0
 		full := tablePrelude + pp + sql
+		skip := preludeStmts + npp
+		if watched {
+			full = tablePrelude + filePrelude + pp + sql
+			skip++
+		}
 		if debug {
 			fmt.Fprintf(os.Stderr, "%d cost=%d %s\n", i, pg.cost(prog), sql)
 		}
@@ -1813,7 +1921,7 @@ func runC15(seed int64, n int, dir string, _ []string) {
 		shared.P = query.NewProcessor(shared.P.Tx)
 		var r result
 		if wild {
-			r = execPatched(shared, full, prog, preludeStmts+npp)
+			r = execPatched(shared, full, prog, skip)
 			o.Count("wild_programs")
 		} else {
 			r = exec(shared, full)
@@ -1822,6 +1930,7 @@ func runC15(seed int64, n int, dir string, _ []string) {
 			report(o, "generator_syntax", lawCase{"generator_syntax", []string{full}, r.flow, "parses"})
 			continue
 		}
+		committed := watch.outcome(shared) // before anything else runs in this session: a normal end would commit
 		// what the history left in the pool of blocks
 		poolProbe(o, shared, full)
 		lawPool(o, shared.P.ReferenceScope, 48, full)
@@ -1829,7 +1938,12 @@ func runC15(seed int64, n int, dir string, _ []string) {
 			o.Count("skipped_timeout")
 			continue
 		}
-		o.Case("c15.run "+strconv.Itoa(fuel)+" "+encProgram(prog), r.line())
+		if watched {
+			o.Case("c15.runtx "+strconv.Itoa(fuel)+" "+encProgram(prog), r.line()+" | "+committed)
+			o.Count("tx:" + committed + "_after_" + r.flow[:1])
+		} else {
+			o.Case("c15.run "+strconv.Itoa(fuel)+" "+encProgram(prog), r.line())
+		}
 		if r.nblk != 1 {
 			report(o, "block_stack_balanced", lawCase{"block_stack_balanced", []string{sql}, strconv.Itoa(r.nblk), "1"})
 		}
@@ -1870,6 +1984,9 @@ func runC15(seed int64, n int, dir string, _ []string) {
 		}
 		if i%8 == 2 {
 			lawsObjects(g, o)
+		}
+		if i%16 == 6 {
+			lawFileShadow(g, o, base)
 		}
 
 	}
